@@ -133,12 +133,6 @@ def ident (j : Json) : Json :=
   | "filter" => let x := decFilter a; let y := decFilter b; out (eqJ (x.eq y)) x.hashVal y.hashVal
   | other => jErr s!"unknown kind {other}"
 
-structure GF where
-  id : Nat
-  typed : Bool
-  sim : String
-  base : String
-
 def handle (op : String) (j : Json) : Json :=
   match op with
   | "pyEq" =>
@@ -153,10 +147,15 @@ def handle (op : String) (j : Json) : Json :=
   | "sim" =>
     let f := decFeature (fld j "f")
     jObj [("sim", encVal f.simVal), ("base", encVal f.baseVal)]
+  | "keyEq" =>
+    let a := decFeature (fld j "a"); let b := decFeature (fld j "b")
+    jObj [("simEq", toJson (pyEq a.simKey b.simKey)), ("baseEq", toJson (pyEq a.baseKey b.baseKey))]
   | "group" =>
-    let fs : List GF := (arrF j "features").map (fun f => ⟨natF f "id", boolF f "typed", strF f "sim", strF f "base"⟩)
-    let res := OptGroup.groupBy (fun f : GF => f.typed) (fun f => f.sim) (fun f => f.base) List.head? fs
-    jObj [("groups", jArr (res.map (fun e => jNats (e.2.map (·.id))))), ("keys", jStrs (res.map (·.1)))]
+    -- features in the iteration order of the real set; ids = positions
+    let fs : List (Nat × FeatureId) := (arrF j "features").zipIdx.map (fun (f, i) => (i, decFeature f))
+    let res := OptGroup.groupBy pyEq (fun f : Nat × FeatureId => f.2.dtype.isSome) (fun f => f.2.simKey)
+      (fun f => f.2.baseKey) List.head? fs
+    jObj [("groups", jArr (res.map (fun e => jNats (e.2.map (·.1)))))]
   | "levels" =>
     let deps : List (Nat × List Nat) := (arrF j "deps").map (fun d => match asArr d with
       | [u, ds] => (asNat u, (asArr ds).map asNat)
